@@ -1167,6 +1167,9 @@ int Interpret::interpPipe() {
         int bts_rd = read(STDIN_FILENO, &buf[rd_head], rd_chunk);
         if (bts_rd == 0) {
             // Read EOF
+            if (par > 0 or inString or inQuotedSymbol) {
+                notify_formatted(true, "pipe reader: unexpected end of input");
+            }
             break;
         }
         if (bts_rd < 0) {
